@@ -230,6 +230,45 @@ def _take_sites(ck, rf):
         if not isinstance(arg, ast.Name):
             continue
         lst = arg.id
+        # the list may be produced by a helper method of the engine
+        helper = None
+        ds = [d for d in local_defs(f.node).get(lst, [])
+              if d.kind != 'mutate']
+        if len(ds) == 1 and isinstance(ds[0].value, ast.Call) and \
+                isinstance(ds[0].value.func, ast.Attribute) and A.is_name(
+                    ds[0].value.func.value, 'self'):
+            helper = ck.repo.method('Engine', ds[0].value.func.attr)
+        if helper is not None:
+            rf.take_helper = helper
+            hf = FrontModel(helper)
+            ck.functions.add(helper.fq)
+            rets = [r for r in A.walk_no_nested(helper.node)
+                    if isinstance(r, ast.Return) and isinstance(
+                        r.value, ast.Name)]
+            for r in rets:
+                hl = r.value.id
+                for c in A.calls_in(helper.node, 'append'):
+                    if not A.is_name(A.call_receiver(c), hl) or not c.args:
+                        continue
+                    v = c.args[0]
+                    reads = hf.slot_reads(v, 'update')
+                    read = None
+                    if reads:
+                        read = reads[0]
+                    elif isinstance(v, ast.Name):
+                        for d in reaching(helper.node).at(c, v.id):
+                            if d.value is not None:
+                                rr = hf.slot_reads(d.value, 'update')
+                                if rr:
+                                    read = (d.stmt, rr[0][1])
+                    if read is None:
+                        continue
+                    stmt = c
+                    while not isinstance(stmt, ast.stmt):
+                        stmt = stmt._parent
+                    sites.append((stmt, read[0], read[1], _enclosing_loop(
+                        stmt, helper.node), hl, r))
+            continue
         for c in A.calls_in(f.node, 'append'):
             if not A.is_name(A.call_receiver(c), lst) or not c.args:
                 continue
@@ -277,14 +316,21 @@ def r01_3(ck, rf):
             'taken from front only when entry.time <= global_time, its slot '
             'is emptied in the same iteration, and the list reaches '
             '_send_updates')
-    f, cfg, fm = rf.fi, rf.cfg, rf.front
     sites = _take_sites(ck, rf)
     ck.floor('R01.3', len(sites), 1, 'take sites feeding _send_updates')
     rf.take_clears = set()
+    helper = getattr(rf, 'take_helper', None)
     for stmt, read, ek, loop, lst, send in sites:
+        in_helper = helper is not None and within(stmt, helper.node)
+        f = helper if in_helper else rf.fi
+        cfg = cfg_of(f.node)
+        fm = FrontModel(f) if in_helper else rf.front
         n = cfg.node(stmt)
         atoms = cfg.guards(n)
-        ck.require(_time_le_clock(rf, atoms, ek), 'R01.3', f, stmt,
+
+        class _RF:
+            front = fm
+        ck.require(_time_le_clock(_RF, atoms, ek), 'R01.3', f, stmt,
                    "take is dominated by  entry['time'] <= self.global_time",
                    'an update is taken without the due-time guard '
                    "entry['time'] <= self.global_time (early or late "
@@ -310,7 +356,8 @@ def r01_3(ck, rf):
                    'iteration ends',
                    'the update slot is not cleared after the take: the same '
                    'update would be applied again on the next pass', stmt)
-        # the list reaches _send_updates on every path out of the loop
+        # the list reaches _send_updates (or, in a helper, the return that
+        # feeds it) on every path out of the loop
         sn = cfg.node(send)
         done = [x for x in cfg.g.successors(hdr)
                 if cfg.info[x].get('pol') == 'done']
@@ -336,7 +383,8 @@ def r01_3(ck, rf):
         ds = [d for d in local_defs(f.node).get(lst, [])
               if d.kind != 'mutate']
         fresh = [d for d in ds if isinstance(d.value, (ast.List,)) and
-                 not d.value.elts and within(d.stmt, rf.while_loop)]
+                 not d.value.elts and (in_helper or within(
+                     d.stmt, rf.while_loop))]
         ck.require(bool(fresh) and all(
             cfg.dominates(cfg.node(d.stmt), cfg.node(loop))
             for d in fresh) and len(fresh) == len(ds),
@@ -345,6 +393,17 @@ def r01_3(ck, rf):
             'iteration',
             'the list handed to _send_updates is not reset per iteration: '
             'updates would be applied again')
+    if helper is not None:
+        # the helper is called inside the scheduler loop, and what it
+        # returns goes to _send_updates in the same iteration
+        f, cfg = rf.fi, rf.cfg
+        hc = [c for c in A.calls_in(rf.while_loop, helper.name)]
+        sends = rf.calls('_send_updates')
+        ok = len(hc) == 1 and bool(sends) and cfg.iter_dominates(
+            rf.while_loop, cfg.node(hc[0]), cfg.node(sends[0]))
+        ck.require(ok, 'R01.3', f, hc[0] if hc else helper.name,
+                   'the updates taken by the helper are sent in the same '
+                   'scheduler iteration', None)
 
 
 # ------------------------------------------------------------------ R01.4
@@ -401,9 +460,26 @@ def r01_4(ck):
                 src, comps = source_list(f.node, loop.iter.id)
                 if len(comps) == 1:
                     lc = comps[0]
-                    cg = [c for c in A.calls_in(lc, 'get')
+                    if isinstance(lc, tuple):
+                        # X = []; for e in Y: X.append((e.get(), s))
+                        bloop, bcall = lc
+                        class _LC:      # same shape as a ListComp
+                            pass
+                        shim = _LC()
+                        shim.elt = bcall.args[0]
+                        shim.target = bloop.target
+                        shim.node = bcall
+                    else:
+                        class _LC:
+                            pass
+                        shim = _LC()
+                        shim.elt = lc.elt
+                        shim.target = lc.generators[0].target
+                        shim.node = lc
+                    lc = shim
+                    cg = [c for c in A.calls_in(lc.elt, 'get')
                           if not c.args and not c.keywords]
-                    tnames = {t.id for t in ast.walk(lc.generators[0].target)
+                    tnames = {t.id for t in ast.walk(lc.target)
                               if isinstance(t, ast.Name)}
                     cg = [c for c in cg if isinstance(
                         A.call_receiver(c), ast.Name) and
@@ -428,7 +504,11 @@ def r01_4(ck):
                         # the comprehension is evaluated once, before the
                         # apply loop
                         dstmt = [d for d in local_defs(f.node).get(
-                            loop.iter.id, []) if d.kind != 'mutate'][0].stmt
+                            loop.iter.id, [])][-1].stmt
+                        while getattr(dstmt, '_parent', None) is not None \
+                                and isinstance(dstmt._parent, ast.For) and \
+                                dstmt._parent is not loop:
+                            dstmt = dstmt._parent
                         ck.require(cfg.dominates(cfg.node(dstmt),
                                                  cfg.node(loop)),
                                    'R01.4', f, dstmt,
@@ -558,6 +638,31 @@ def r01_5(ck, rf):
                        'self.process_paths', n)
             break
     else:
+        # alternative idiom: rebuild a new dictionary entry by entry
+        c0 = cfg_of(rd.node)
+        rebuilt = None
+        for s2 in A.walk_no_nested(rd.node):
+            if isinstance(s2, ast.Assign) and isinstance(
+                    s2.targets[0], ast.Subscript) and isinstance(
+                    s2.targets[0].value, ast.Name):
+                lp = s2
+                while lp is not None and not isinstance(lp, ast.For):
+                    lp = getattr(lp, '_parent', None)
+                if lp is None or 'self.front' not in A.unparse(lp.iter):
+                    continue
+                key = A.unparse(s2.targets[0].slice)
+                g = c0.guards(c0.node(s2))
+                if ('in', key, 'self.process_paths') in g:
+                    rebuilt = s2.targets[0].value.id
+        if rebuilt is not None and any(
+                isinstance(s2, ast.Assign) and any(
+                    A.is_self_attr(t, 'front') for t in s2.targets) and
+                A.is_name(s2.value, rebuilt)
+                for s2 in A.walk_no_nested(rd.node)):
+            ck.ok('R01.5', rd, rd.node.name,
+                  'front is rebuilt from its entries whose path is in '
+                  'process_paths')
+            return
         # alternative idiom: delete keys not in process_paths
         dels = [n for n in A.walk_no_nested(rd.node)
                 if isinstance(n, ast.Delete) or (
@@ -750,12 +855,22 @@ def r01_7(ck, rf):
                     '_send_updates', '_emit_store_data', 'run_steps',
                     '_remove_deleted_processes', '_process_state'):
             check_fn(callee, binding, c)
+    # calls whose value is used (x = self.helper())
+    for c in A.calls_in(f.node):
+        if isinstance(c.func, ast.Attribute) and A.is_name(
+                c.func.value, 'self') and not isinstance(
+                getattr(c, '_parent', None), ast.Expr):
+            callee = ck.repo.method('Engine', c.func.attr)
+            if callee is not None and callee.qual != f.qual and \
+                    callee is getattr(rf, 'take_helper', None):
+                check_fn(callee, {}, c)
     # anywhere else in Engine: no other function may empty update slots
     for fi in ck.repo.functions:
         if fi.cls != 'Engine' or fi.is_test or fi.qual == f.qual:
             continue
         called = any(A.call_name(c) == fi.name
-                     for c in A.calls_in(f.node))
+                     for c in A.calls_in(f.node)) or \
+            fi is getattr(rf, 'take_helper', None)
         if called:
             continue
         m = FrontModel(fi)
@@ -802,8 +917,11 @@ def r01_8(ck, rf):
                         hit = True
             # locals bound to the condition: cond = p.update_condition(..)
             if not hit:
-                for cond, pol in cfg.guard_edges(node):
-                    if pol is True and isinstance(cond, ast.Name):
+                for atom in cfg.guards(node):
+                    if atom[0] == 'truthy' and atom[1].isidentifier():
+                        class _N:
+                            id = atom[1]
+                        cond = _N
                         for d in reaching(f.node).at(c, cond.id):
                             e = d.value
                             if isinstance(e, ast.Call) and A.call_name(
